@@ -817,7 +817,47 @@ def register_core(M):
         st = head(info['self_ty'] or '')
         if body is not None and st not in ('Source',):
             return ex.call_body(body, a)
+        if body is None and st not in ('Source', 'Result', 'Option', 'Arc', 'Vec', 'String', 'Box'):
+            # generic code (`T::clone` inside a derive): dispatch on the value's own type
+            v0 = ex.materialize(M.load(ex, a[0]))
+            if isinstance(v0, Adt) and v0.ty:
+                i0 = dict(info)
+                i0.update({'self_ty': v0.ty, 'text': '<%s as Clone>::clone' % v0.ty})
+                b0 = ex.prog.resolve(i0)
+                if b0 is not None:
+                    return ex.call_body(b0, a)
+        if st in ('Result', 'Option'):
+            # std's Clone for Option / Result clones the payload with the payload type's own impl (which may be a
+            # hand-written one of the crate)
+            v = ex.materialize(M.load(ex, a[0]))
+            g = generic_args(info['self_ty'] or '')
+            if isinstance(v, Adt) and g and any(k[0] is not None for k in v.fields):
+                if st == 'Option':
+                    variants = [(1, g[0])]
+                else:
+                    variants = [(0, g[0])] + ([(1, g[1])] if len(g) > 1 else [])
+                for var, pty in variants:
+                    if (var, 0) not in v.fields:
+                        continue
+                    i2 = dict(info)
+                    i2.update({'self_ty': pty, 'text': '<%s as Clone>::clone' % pty, 'trait': 'Clone', 'method': 'clone', 'key': 'Clone::clone'})
+                    if ex.prog.resolve(i2) is None and head(pty) not in ('Result', 'Option'):
+                        continue
+                    d = M.discr(ex, v)
+                    if z3.is_bv_value(z3.simplify(d)) and z3.simplify(d).as_long() != var:
+                        continue
+                    if not z3.is_bv_value(z3.simplify(d)) and not ex.branch(d == bv(var)):
+                        continue
+                    pc = M.table['Clone::clone'](ex, i2, [Ref(Cell(v.fields[(var, 0)]), ())], pty)
+                    return v.with_field((var, 0), pc)
+            return v
         return M.load(ex, a[0])
+
+    @reg('Clone::clone_from')
+    def _(ex, info, a, dty):
+        cell, path = ex.deref(a[0])
+        ex.write_path(cell, path, M.load(ex, a[1]))       # values are immutable: cloning is sharing
+        return UNIT
 
     @reg('Drop::drop')
     def _(ex, info, a, dty):
